@@ -154,7 +154,7 @@ struct Run {
   int eff_tries = 3, eff_timeout_ms = 2000, eff_maxtimeout_ms = 0, max_active = 0, eff_ndots = 1, eff_rotate = 0;
   struct ListEv { int64_t t; int kind; uint32_t seq; };      // kind 0 same list, 1 changed list, 2 reinit
   std::vector<ListEv> srv_list_events;
-  struct ActiveEv { uint32_t seq; std::vector<int> list; };
+  struct ActiveEv { uint32_t seq; std::vector<int> list; uint32_t end_seq = 0; std::string got_csv; bool applied = false; };
   std::vector<std::pair<int64_t, int64_t>> stalls;          // (from, to) virtual-clock jumps during which the application did not run its loop
   struct CookieCtl { int64_t t; int server; int on; };
   std::vector<CookieCtl> cookie_ctl;
